@@ -11,6 +11,8 @@ import KoordVerif.Model.C11Metric
 import KoordVerif.Proofs.C11ExtMetric
 import KoordVerif.Model.C11Containers
 import KoordVerif.Proofs.C11ExtContainers
+import KoordVerif.Model.C11Passes
+import KoordVerif.Proofs.C11ExtPasses
 /-
 C11 — property theorems (DESIGN.md §4 C11).
 
@@ -25,6 +27,7 @@ Part B: victim selection and order.  Part D: decoding of labels / annotations.  
 the real executor (Evictor TTL cache + DefaultEvictionExecutor).  Part E: memoryEvict() / cpuEvict() end to end.
 Part F: the metric glue (CollectPodMetricLast on the metric cache) that decides whether a pod is "measured".
 Part G: the container loops behind a pod's mid / batch request.
+Part H: several memoryEvict() / cpuEvict() passes while earlier victims are still terminating.
 -/
 namespace KoordVerif.C11
 
@@ -1171,5 +1174,197 @@ theorem ext_request_nonneg (get : Ctr → Int) (cs : List Ctr) : 0 ≤ ctrSum ge
     omega
 
 example : ctrSum Ctr.batch [⟨0, -1, 300⟩, ⟨1, -1, 900⟩, ⟨2, -1, 200⟩, ⟨0, 50, -1⟩, ⟨0, -1, 0⟩] = 500 := by decide
+
+/-! ## Part H — several passes while earlier victims are still terminating (Model/C11Passes.lean) -/
+
+/-- converse of `mem_selectPrio_raw`: an eligible raw pod stands in the priority-based list. -/
+theorem selectPrio_raw_complete (code : Nat) (pt : Int) (byReq : Bool) (pods : List RawPod) (rp : RawPod)
+    (hrp : rp ∈ pods) (h : RawPrioEligible code pt rp) :
+    (∃ i ∈ selectPrio pt byReq (pods.map (decodePodFor code)), i.pod.id = rp.id) ∧
+    (∃ i ∈ selectPrioMem pt byReq (pods.map (decodePodFor code)), i.pod.id = rp.id) := by
+  obtain ⟨pr, he⟩ := h
+  constructor
+  · exact ⟨_, (prio_victims_eligible pt byReq _ _).mpr
+      ⟨decodePodFor code rp, List.mem_map.mpr ⟨rp, hrp, rfl⟩, pr, he, rfl⟩, rfl⟩
+  · unfold selectPrioMem
+    refine ⟨_, (prio_victims_eligible pt byReq _ _).mpr
+      ⟨{ decodePodFor code rp with used := Int.tdiv (decodePodFor code rp).used 1000 },
+       List.mem_map.mpr ⟨decodePodFor code rp, List.mem_map.mpr ⟨rp, hrp, rfl⟩, rfl⟩, pr,
+       (prioEligible_used pt _ _ pr).mpr he, rfl⟩, rfl⟩
+
+/-- converse of `mem_selectBE_raw`. -/
+theorem selectBE_raw_complete (code : Nat) (usage : Int → Int → Int) (pods : List RawPod) (rp : RawPod)
+    (hrp : rp ∈ pods) (h : RawBEEligible code rp) :
+    (∃ i ∈ selectBEMem (pods.map (decodePodFor code)), i.pod.id = rp.id) ∧
+    (∃ i ∈ selectBECpu usage (pods.map (decodePodFor code)), i.pod.id = rp.id) := by
+  have key : ∀ (u : Int → Int → Int) (d : Int) (c : Bool), ∃ i, beInfo? u d c (decodePodFor code rp) = some i ∧ i.pod.id = rp.id := by
+    intro u d c
+    unfold beInfo?
+    simp [h.1, h.2]
+    rfl
+  constructor
+  · obtain ⟨i, hi, hid⟩ := key (fun _ _ => 0) 1000 false
+    exact ⟨i, ((be_list_is_permutation usage _ i).1).mpr
+      (List.mem_filterMap.mpr ⟨_, List.mem_map.mpr ⟨rp, hrp, rfl⟩, hi⟩), hid⟩
+  · obtain ⟨i, hi, hid⟩ := key usage 1 true
+    exact ⟨i, ((be_list_is_permutation usage _ i).2).mpr
+      (List.mem_filterMap.mpr ⟨_, List.mem_map.mpr ⟨rp, hrp, rfl⟩, hi⟩), hid⟩
+
+theorem memEntry_pod (pods : List RawPod) (a b : Bool) (i : Info) : (memEntry pods a b i).pod = i.pod.id := rfl
+theorem cpuEntry_pod (pods : List RawPod) (a b : Bool) (i : Info) : (cpuEntry pods a b i).pod = i.pod.id := rfl
+
+/-! ### H.1 terminating_victim_stays_candidate — the candidate list a memoryEvict() pass publishes for a feature holds
+    EVERY pod of the pass that is eligible under the feature, whether or not the pod object carries a deletionTimestamp
+    (`pp.terminating`): an earlier victim that is still terminating (Running, measured) stays a candidate, which is what
+    lets KillAndEvictPods' pending-release branch credit it. -/
+theorem terminating_victim_stays_candidate (allocF : Int → Int → Int → Int → Option Int) (c : MemCfg)
+    (pps : List PassPod) (f : MemFeature) (t : Task) (h : memTask allocF c (passRaws pps) f = some t)
+    (pp : PassPod) (hpp : pp ∈ pps) (hel : MemEligible c f pp.raw) :
+    ∃ e ∈ t.pods, e.pod = pp.raw.id := by
+  have hraw : pp.raw ∈ passRaws pps := List.mem_map.mpr ⟨pp, hpp, rfl⟩
+  cases f with
+  | be =>
+    unfold memTask at h
+    by_cases hc : c.commonOK = true <;> simp [hc] at h
+    obtain ⟨to, _, rfl⟩ := h
+    obtain ⟨i, hi, hid⟩ := (selectBE_raw_complete 10 (fun _ _ => 0) _ pp.raw hraw hel).1
+    exact ⟨_, List.mem_map.mpr ⟨i, hi, rfl⟩, hid⟩
+  | mem =>
+    obtain ⟨pt, hpt, hel⟩ := hel
+    unfold memTask at h
+    by_cases hc : c.memOK = true <;> simp [hc] at h
+    cases hu : c.usedTarget <;> simp [hu, hpt] at h
+    subst h
+    obtain ⟨i, hi, hid⟩ := (selectPrio_raw_complete 12 pt false _ pp.raw hraw hel).2
+    exact ⟨_, List.mem_map.mpr ⟨i, hi, rfl⟩, hid⟩
+  | alloc =>
+    obtain ⟨pt, hpt, _, hel⟩ := hel
+    unfold memTask at h
+    by_cases hc : c.allocOK = true <;> simp [hc] at h
+    obtain ⟨_, h⟩ := h
+    simp [hpt] at h
+    subst h
+    obtain ⟨i, hi, hid⟩ := (selectPrio_raw_complete 11 pt true _ pp.raw hraw hel).2
+    exact ⟨_, List.mem_map.mpr ⟨i, hi, rfl⟩, hid⟩
+
+/-- the same for cpuEvict(). -/
+theorem cpu_terminating_victim_stays_candidate (usage : Int → Int → Int) (allocF : Int → Int → Int → Int → Option Int)
+    (c : CpuCfg) (pps : List PassPod) (f : CpuFeature) (t : Task)
+    (h : cpuTask usage allocF c (passRaws pps) f = some t)
+    (pp : PassPod) (hpp : pp ∈ pps) (hel : CpuEligible c f pp.raw) :
+    ∃ e ∈ t.pods, e.pod = pp.raw.id := by
+  have hraw : pp.raw ∈ passRaws pps := List.mem_map.mpr ⟨pp, hpp, rfl⟩
+  cases f with
+  | be =>
+    unfold cpuTask at h
+    by_cases hc : c.satOK = true <;> simp [hc] at h
+    obtain ⟨to, _, rfl⟩ := h
+    obtain ⟨i, hi, hid⟩ := (selectBE_raw_complete 13 usage _ pp.raw hraw hel).2
+    exact ⟨_, List.mem_map.mpr ⟨i, hi, rfl⟩, hid⟩
+  | cpu =>
+    obtain ⟨pt, hpt, hel⟩ := hel
+    unfold cpuTask at h
+    by_cases hc : c.usedOK = true <;> simp [hc] at h
+    cases hu : c.usedTarget <;> simp [hu, hpt] at h
+    subst h
+    obtain ⟨i, hi, hid⟩ := (selectPrio_raw_complete 15 pt false _ pp.raw hraw hel).1
+    exact ⟨_, List.mem_map.mpr ⟨i, hi, rfl⟩, hid⟩
+  | alloc =>
+    obtain ⟨pt, hpt, _, hel⟩ := hel
+    unfold cpuTask at h
+    by_cases hc : c.allocOK = true <;> simp [hc] at h
+    obtain ⟨_, h⟩ := h
+    simp [hpt] at h
+    subst h
+    obtain ⟨i, hi, hid⟩ := (selectPrio_raw_complete 14 pt true _ pp.raw hraw hel).1
+    exact ⟨_, List.mem_map.mpr ⟨i, hi, rfl⟩, hid⟩
+
+/-- the task list of a pass does not depend on which pods are terminating. -/
+theorem pass_tasks_ignore_deletion_timestamp (allocF : Int → Int → Int → Int → Option Int) (c : MemCfg)
+    (pps : List PassPod) (flags : PassPod → Bool) :
+    memPassTasks allocF c (pps.map fun pp => { pp with terminating := flags pp }) = memPassTasks allocF c pps := by
+  unfold memPassTasks passRaws
+  rw [List.map_map]; rfl
+
+/-! ### H.2 repeat_pass_evicts_nobody — a pass that sees the pods, usages, pressure and configuration of the pass
+    before it (only deletionTimestamps were added: `passRaws pps2 = passRaws pps1`), after a pass all of whose eviction
+    API calls succeeded, with the executor in API mode and started, inside the TTL (and while the `IsPodEvicted = true`
+    answers of the earlier pass are still valid), makes NO Evict call: every pod the earlier pass evicted or credited is
+    credited as pending release, the credited release is the same, nothing is newly evicted.  So for one unchanged
+    pressure the total number of evictions never exceeds what the first pass needed. -/
+theorem mem_repeat_pass_evicts_nobody (allocF : Int → Int → Int → Int → Option Int) (c : MemCfg)
+    (pps1 pps2 : List PassPod) (x : Exec) (hapi : x.onlyAPI = true) (hst : x.started = true)
+    (now1 now2 : Int) (script1 script2 : List Bool) (hs : ∀ b ∈ script1, b = true)
+    (hsame : passRaws pps2 = passRaws pps1) (httl : now2 ≤ now1 + x.ttl)
+    (hkeep : ∀ p, x.isEvicted now1 p = true → x.isEvicted now2 p = true)
+    (s1 : XSt) (h1 : memoryEvictPass allocF c pps1 x now1 script1 = some s1) :
+    ∃ s2, memoryEvictPass allocF c pps2 s1.x now2 script2 = some s2 ∧
+      (∀ ev ∈ s2.st.logRev, ev.kind = .pending) ∧ s2.st.released = s1.st.released ∧ s2.st.newly = false := by
+  unfold memoryEvictPass memPassTasks at h1 ⊢
+  rw [hsame]
+  by_cases he : (memTasks allocF c (passRaws pps1)).isEmpty = true
+  · simp [he] at h1
+  · simp only [he] at h1 ⊢
+    simp only [Bool.false_eq_true, if_false, Option.some.injEq] at h1 ⊢
+    subst h1
+    exact ⟨_, rfl, repeat_round_mirror x hapi hst
+      { now := now1, script := script1, tasks := (memTasks allocF c (passRaws pps1)).map (·.2) }
+      { now := now2, script := script2, tasks := (memTasks allocF c (passRaws pps1)).map (·.2) }
+      hs rfl httl hkeep⟩
+
+theorem cpu_repeat_pass_evicts_nobody (usage : Int → Int → Int) (allocF : Int → Int → Int → Int → Option Int)
+    (c : CpuCfg) (pps1 pps2 : List PassPod) (x : Exec) (hapi : x.onlyAPI = true) (hst : x.started = true)
+    (now1 now2 : Int) (script1 script2 : List Bool) (hs : ∀ b ∈ script1, b = true)
+    (hsame : passRaws pps2 = passRaws pps1) (httl : now2 ≤ now1 + x.ttl)
+    (hkeep : ∀ p, x.isEvicted now1 p = true → x.isEvicted now2 p = true)
+    (s1 : XSt) (h1 : cpuEvictPass usage allocF c pps1 x now1 script1 = some s1) :
+    ∃ s2, cpuEvictPass usage allocF c pps2 s1.x now2 script2 = some s2 ∧
+      (∀ ev ∈ s2.st.logRev, ev.kind = .pending) ∧ s2.st.released = s1.st.released ∧ s2.st.newly = false := by
+  unfold cpuEvictPass cpuPassTasks at h1 ⊢
+  rw [hsame]
+  by_cases he : (cpuTasks usage allocF c (passRaws pps1)).isEmpty = true
+  · simp [he] at h1
+  · simp only [he] at h1 ⊢
+    simp only [Bool.false_eq_true, if_false, Option.some.injEq] at h1 ⊢
+    subst h1
+    exact ⟨_, rfl, repeat_round_mirror x hapi hst
+      { now := now1, script := script1, tasks := (cpuTasks usage allocF c (passRaws pps1)).map (·.2) }
+      { now := now2, script := script2, tasks := (cpuTasks usage allocF c (passRaws pps1)).map (·.2) }
+      hs rfl httl hkeep⟩
+
+/-! ### H.3 the excluded variant: list builders that SKIP a pod carrying a deletionTimestamp.  `memoryEvictPassSkipping`
+    is `memoryEvictPass` with the terminating pods filtered out of what the builders see.  Witness: BE pods 0 (uses 34) and
+    1 (uses 5), capacity 100, node usage 70, threshold 65, lower 60: target 10.  Pass 1 evicts pod 0 and stops.  In pass 2
+    pod 0 is terminating: the model (= the code) credits it and evicts nobody; the skipping variant no longer sees it and
+    evicts pod 1 as well — two evictions for a pressure that needed one. -/
+def memoryEvictPassSkipping (allocF : Int → Int → Int → Int → Option Int) (c : MemCfg) (pps : List PassPod)
+    (x : Exec) (now : Int) (script : List Bool) : Option XSt :=
+  memoryEvictPass allocF c (pps.filter fun pp => !pp.terminating) x now script
+
+def passWitnessPod (id : Nat) (used : Int) : RawPod :=
+  { id := id, name := id, qosLabel := 1, kubeQoS := 1, phase := 1, specPrio := some 5500, clsLabel := 0,
+    evictLabel := 1, evictPrio := .absent, prioLabel := .absent, policyTop := 0, policyElems := [],
+    hasMetric := true, used := used, reqNative := 100, reqMid := 0, reqBatch := 0, batchReq := 0 }
+
+def passWitnessCfg : MemCfg :=
+  { beOn := true, allocOn := false, memOn := false, thr := some 65, lower := some 60, prioThr := none, aThr := none,
+    aLower := none, aPrioThr := none, capacity := 100, nodeUsed := some 70, allocMem := none, allocBatch := none,
+    allocMid := none }
+
+def callsOf (s : Option XSt) : List (Nat × Kind) :=
+  match s with
+  | none => []
+  | some s => s.st.logRev.reverse.map fun ev => (ev.e.pod, ev.kind)
+
+theorem skipping_terminating_counterexample :
+    let noAlloc : Int → Int → Int → Int → Option Int := fun _ _ _ _ => none
+    let x0 : Exec := { onlyAPI := true, started := true, ttl := 120, cache := [] }
+    let p1 : List PassPod := [⟨passWitnessPod 0 34000, false⟩, ⟨passWitnessPod 1 5000, false⟩]
+    let p2 : List PassPod := [⟨passWitnessPod 0 34000, true⟩, ⟨passWitnessPod 1 5000, false⟩]
+    let x1 := ((memoryEvictPass noAlloc passWitnessCfg p1 x0 0 []).map (·.x)).getD x0
+    callsOf (memoryEvictPass noAlloc passWitnessCfg p1 x0 0 []) = [(0, .ok)] ∧
+    callsOf (memoryEvictPass noAlloc passWitnessCfg p2 x1 1 []) = [(0, .pending)] ∧
+    ¬ (∀ q ∈ callsOf (memoryEvictPassSkipping noAlloc passWitnessCfg p2 x1 1 []), q.2 = .pending) := by
+  decide
 
 end KoordVerif.C11
